@@ -167,7 +167,7 @@ func (rt *referenceTracker) processRowUpdate(table, uuid string, row *ovsdb.RowU
 		rt.deleted[uuid] = table
 		updateRefs = getReferenceModificationsFromRow(&rt.dbModel, table, uuid, row.Old, row.Old)
 	case row.Modify != nil:
-		updateRefs = getReferenceModificationsFromRow(&rt.dbModel, table, uuid, row.Modify, row.Old)
+		updateRefs = getReferenceModificationsFromModify(&rt.dbModel, table, uuid, row)
 	case row.Insert != nil:
 		if !isRoot(&rt.dbModel, table) {
 			// track rows added that are not part of the root set, we might need
@@ -598,6 +598,44 @@ func getReferenceModificationsFromRow(dbModel *model.DatabaseModel, table, uuid 
 		}
 		crefs := getReferenceModificationsFromColumn(dbModel, table, uuid, column, value, oldValue)
 		refs.UpdateReferences(crefs)
+	}
+	return refs
+}
+
+// getReferenceModificationsFromModify extracts the references removed and added
+// by a row modification. A modify row is not enough to tell them apart: for an
+// optional value it carries the new value only, and a map can reference the
+// same row from several keys or replace the value of a key. So compare the
+// references held by the old and by the new value of each modified column.
+func getReferenceModificationsFromModify(dbModel *model.DatabaseModel, table, uuid string, row *ovsdb.RowUpdate2) database.References {
+	if row.Old == nil || row.New == nil {
+		return getReferenceModificationsFromRow(dbModel, table, uuid, row.Modify, row.Old)
+	}
+	refs := database.References{}
+	addMissing := func(a, b database.References) {
+		// references in 'a' that are not in 'b'
+		for spec, aRefs := range a {
+			for to := range aRefs {
+				if _, ok := b[spec][to]; ok {
+					continue
+				}
+				if _, ok := refs[spec]; !ok {
+					refs[spec] = database.Reference{}
+				}
+				refs[spec][to] = []string{uuid}
+			}
+		}
+	}
+	for column := range *row.Modify {
+		var oldRefs, newRefs database.References
+		if value, ok := (*row.Old)[column]; ok {
+			oldRefs = getReferenceModificationsFromColumn(dbModel, table, uuid, column, value, nil)
+		}
+		if value, ok := (*row.New)[column]; ok {
+			newRefs = getReferenceModificationsFromColumn(dbModel, table, uuid, column, value, nil)
+		}
+		addMissing(oldRefs, newRefs)
+		addMissing(newRefs, oldRefs)
 	}
 	return refs
 }
